@@ -19,6 +19,52 @@ func splitKind(msg string) (string, string) {
 	return "other", msg
 }
 
+// largeBackfillScenario (C09): backfills over a few hundred documents, some of which share a CAS.
+func largeBackfillScenario(c *sup.Ctx, r *rng.R) {
+	disk := c.Local%2 == 1
+	b, err := conc.OpenBucket(c.Tmp, disk, 1)
+	if err != nil {
+		c.Incon("cannot open bucket: " + err.Error())
+		return
+	}
+	defer b.Close()
+	dumps, msg, info := conc.LargeBackfillRun(b, r)
+	c.Count("large_backfills", int64(dumps))
+	c.Cell(fmt.Sprintf("large-backfill|%s|%d", ifStr(disk, "disk", "mem"), dumps))
+	if msg != "" {
+		k, text := splitKind(msg)
+		if k == "setup" {
+			c.Incon(text)
+		} else {
+			c.Viol([]string{"C09"}, "large-backfill|"+k, text, info)
+		}
+	}
+	c.Sample(info)
+}
+
+// bystanderStopScenario (C15): a plain feed next to the checkpointed one is stopped while the latter keeps running.
+func bystanderStopScenario(c *sup.Ctx, r *rng.R) {
+	disk := c.Local%2 == 1
+	m, err := conc.OpenMulti(c.Tmp, disk, 1+r.Intn(2), 1)
+	if err != nil {
+		c.Incon("cannot open bucket: " + err.Error())
+		return
+	}
+	defer m.Close()
+	msg, info := conc.BystanderStopRun(m, r)
+	c.Count("neighbour_feed_stops", 1)
+	c.Cell(fmt.Sprintf("bystander-stop|%s|before=%v|after=%v", ifStr(disk, "disk", "mem"), info["plain_feeds_registered_before"], info["after"]))
+	if msg != "" {
+		k, text := splitKind(msg)
+		if k == "setup" {
+			c.Incon(text)
+		} else {
+			c.Viol([]string{"C15"}, "bystander-stop|"+k, text, info)
+		}
+	}
+	c.Sample(info)
+}
+
 func joinScenario(c *sup.Ctx, r *rng.R, props []string) {
 	disk := c.Local%2 == 1
 	m, err := conc.OpenMulti(c.Tmp, disk, 2, 1)
@@ -131,6 +177,7 @@ func init() {
 		Rule: "(snapshot) engine A: at quiescent points Dump feeds are started from start CAS in {0, a median CAS, the maximum, maximum+1, the touched key's CAS} (every fourth one KeysOnly) and compared with the current read-back of every key: bracketed by the markers, in CAS order, exactly the documents (tombstones included) with CAS >= start, once each, every field equal to what a live event for that state carries and, where the live feed delivered the same version (CAS, RevNo), equal field by field to that live event; (join) a backfill+live feed is started while 2-6 writers run and the feed.registered hook parks the starter between end of backfill and registration until further writes have been acknowledged; after a fence the newest event received for every key must be its final version; cell = (variant, pre-state, outcome, bucket type) / (writers, writes inside the window)",
 		Assumptions: kvAssume,
 		Parts: append(c09SeqParts(),
+			mk("C09", "large-backfill", 40, 800, false, func(c *sup.Ctx, r *rng.R, _ []string) { largeBackfillScenario(c, r) }),
 			mk("C09", "join-races", 300, 6000, false, joinScenario),
 			mk("C09", "join-races-race", 20, 200, true, joinScenario)),
 		RaceOwner: func(string) bool { return false },
@@ -152,6 +199,7 @@ func init() {
 			mk("C15", "checkpoint-restarts", 1500, 30000, false, checkpointScenario),
 			mk("C15", "checkpoint-restarts-race", 60, 2400, true, checkpointScenario),
 			mk("C15", "checkpoint-restarts-two-collections", 300, 6000, false, multiCheckpointScenario),
+			mk("C15", "neighbour-feed-stopped", 60, 1200, false, func(c *sup.Ctx, r *rng.R, _ []string) { bystanderStopScenario(c, r) }),
 		},
 		RaceOwner: func(string) bool { return false },
 		Floor: func(tier string, m *sup.Merged) string {
